@@ -214,6 +214,11 @@ def run(sc, tier, seed):
     R.add_model(V.model_check(sc, "Scheduler", "SchedulerMC.tla", "Scheduler_live_nofinish.cfg", workers=4, timeout=900))
     # ... and the variant that keeps the lock while it waits for a busy worker must NOT have that property
     obs["ApiNeverWaitsForExecution in the variant that holds s.mu across the hand-off wait"] = held_variant(sc)
+    # ... and the variant whose Release stops the timer on an empty queue (leaving s.when stale) must strand a later Schedule
+    res = V.model_check(sc, "Scheduler", "SchedulerMC.tla", "Scheduler_obs_relstop.cfg", workers=2, timeout=600, expect_violation=["NeverStranded"])
+    if not res["violated"]:
+        raise V.Broken("the variant whose Release stops the timer does not violate NeverStranded")
+    obs["NeverStranded in the variant whose Release stops the timer on an empty queue"] = "fails, as it must (expected counterexample)"
     readings = [("Scheduler_obs_rerun.cfg", "NeverRerunAcrossEpochs")]
     if tier == "thorough":
         readings.append(("Scheduler_obs_ckpt.cfg", "CheckpointNeverGoesBack"))
